@@ -928,6 +928,9 @@ class NumpyModel:
             for k_, it_ in enumerate(items):
                 if it_.ty == 'slice' and it_.lo is None and it_.hi is None and it_.step is not None and has_const(it_.step) and cval(it_.step) == -1:
                     out = flip_axis(out.w(flipped=out.flipped if out.flipped is not None else base.flipped, filled=out.filled or base.filled), k_)
+            if all(i_.ty == 'slice' and i_.lo is None and i_.hi is None and (i_.step is None or (has_const(i_.step) and cval(i_.step) == -1)) for i_ in items) \
+                    and base.idxtable is not None and out.idxtable is None:
+                out = out.w(idxtable=base.idxtable, runmax=base.runmax)  # only the order changes: still the same position table
         if base.litconst is not None and len(items) == 1 and items[0].litconst is not None and items[0].dtype == 'bool':
             rows, mask = base.litconst[1], items[0].litconst[1]
             if len(rows) == len(mask) and all(isinstance(m, bool) for m in mask):
